@@ -192,6 +192,7 @@ func (c *Conn) Execute(job func()) bool {
 	isHead := (len(c.jobList) == 0)
 	c.jobList = append(c.jobList, job)
 	c.mux.Unlock()
+	verifPoint("execute.afterAppend", c)
 
 	// If there's no job running, run Engine.Execute to run this job
 	// and new jobs appended before this head job is done.
@@ -213,6 +214,7 @@ func (c *Conn) MustExecute(job func()) {
 	isHead := (len(c.jobList) == 0)
 	c.jobList = append(c.jobList, job)
 	c.mux.Unlock()
+	verifPoint("execute.afterAppend", c)
 
 	// If there's no job running, run Engine.Execute to run this job
 	// and new jobs appended before this head job is done.
@@ -240,6 +242,7 @@ func (c *Conn) execute(job func()) {
 				}()
 				job()
 			}()
+			verifPoint("execute.afterJob", c)
 
 			c.mux.Lock()
 			i++
